@@ -124,6 +124,7 @@ type State struct {
 	topBase        Term
 	depth          int
 	ghost          map[string]Term
+	loopHeads      map[int]*State // state at the head of the current iteration of a loop with `step` clauses
 	guardedOutside []string
 	condIdx        []int                   // indices into pc that are branch conditions
 	pend           string                  // goal of the last obligation (its assumption is a branch condition)
@@ -173,6 +174,12 @@ func (st *State) clone() *State {
 		resp:           st.resp[:len(st.resp):len(st.resp)],
 		epoch:          st.epoch,
 		modEpoch:       st.modEpoch[:len(st.modEpoch):len(st.modEpoch)],
+	}
+	if len(st.loopHeads) > 0 {
+		n.loopHeads = make(map[int]*State, len(st.loopHeads))
+		for k, v := range st.loopHeads {
+			n.loopHeads[k] = v
+		}
 	}
 	if len(st.arrElems) > 0 {
 		n.arrElems = make(map[*Cell]map[int64]Val, len(st.arrElems))
